@@ -44,16 +44,19 @@ pub fn gen_pool(rng: &mut StdRng, extremes: bool) -> Case {
     let mut res = vec![];
     loop {
         res.clear();
-        let base = log_uniform(rng, 1, 10u128.pow(30));
+        // one case in twelve sits at the edge of (or beyond) the supported range: reserves whose
+        // value normalised to the highest decimals approaches or exceeds 128 bits
+        let edge = extremes && rng.gen_range(0..12) == 0;
+        let base = if edge { log_uniform(rng, 10u128.pow(34), 3 * 10u128.pow(38)) } else { log_uniform(rng, 1, 10u128.pow(30)) };
         let mut ok = true;
         for d in &decs {
             let sk = match rng.gen_range(0..3) {
                 0 => 1,
                 _ => log_uniform(rng, 1, 1000),
             };
-            let norm = base.saturating_mul(sk);
-            let native = norm / 10u128.pow(maxd - *d as u32);
-            if native == 0 || native > 10u128.pow(30) {
+            let scale = 10u128.pow(maxd - *d as u32);
+            let native = if edge { (base / scale).saturating_mul(sk).min(u128::MAX / 2) } else { base.saturating_mul(sk) / scale };
+            if native == 0 || (!edge && native > 10u128.pow(30)) {
                 ok = false;
                 break;
             }
